@@ -272,6 +272,31 @@ const FOOTER: &str = "\nlet __res;\ntry { __res = await main(); } catch (e) { __
 
 /// (name, body defining `async function main()`; may use __log)
 pub const AWAIT_ATOMS: &[(&str, &str)] = &[
+    ("arguments-after-await", "async function main(){ async function f(a, b){ const r = await order({k: 1}); return [arguments.length, arguments[0], arguments[2], r, a + b]; } return await f(7, 8, 9); }"),
+    ("arguments-in-caller-frame", "async function main(){ async function inner(k){ return await order({k: k}); } async function outer(){ const r = await inner(2); return [arguments.length, arguments[1], r]; } return await outer('x', 'y', 'z'); }"),
+    ("arguments-in-sync-caller", "async function main(){ function deep(k){ return order({k: k}); } function mid(){ const p = deep(3); return [arguments.length, arguments[0], p]; } const t = mid('m', 'n'); t[2] = await t[2]; return t; }"),
+    ("rest-and-default-params", "async function main(){ async function f(a, b = a + 1, ...rest){ const r = await order({k: a}); return [a, b, rest, r, rest.length]; } return [await f(1), await f(2, 5, 'x', 'y')]; }"),
+    ("finally-busy-pending-throw-object", "async function main(){ function junk(){ var g = []; for (var i = 0; i < 40; i++) { g.push({i: i, s: 'x' + i}); } return g.length; } async function f(){ try { throw { code: 7, list: [1, 2, {deep: 'd'}] }; } finally { const t = [1, 2, 3].map(function(x){ return x * 2; }); const u = { a: t.length, b: junk() }; const r = await order({k: u.a}); junk(); __log.push('fin' + r + u.b); } } try { await f(); return 'not-thrown'; } catch (e) { return ['caught', e.code, e.list]; } }"),
+    ("finally-busy-pending-throw-error", "async function main(){ function junk(){ var g = []; for (var i = 0; i < 40; i++) { g.push({i: i, s: 'x' + i}); } return g.length; } class MyErr extends Error { constructor(m, extra){ super(m); this.extra = extra; } } async function f(){ try { throw new MyErr('boom', {x: [9]}); } finally { let s = ''; for (let i = 0; i < 3; i++) { s += String(i); } const r = await order({k: s.length}); junk(); __log.push(s + r); } } try { await f(); return 'no'; } catch (e) { return [e instanceof MyErr, e.message, e.extra]; } }"),
+    ("finally-busy-pending-return-object", "async function main(){ function junk(){ var g = []; for (var i = 0; i < 40; i++) { g.push({i: i, s: 'x' + i}); } return g.length; } async function f(){ try { return { ret: [1, {z: 2}], tag: 'r' }; } finally { const t = { k: [4, 5].concat([6]) }; const r = await order({k: t.k.length}); junk(); __log.push('fin' + r); } } return await f(); }"),
+    ("finally-nested-pending-throw", "async function main(){ function junk(){ var g = []; for (var i = 0; i < 40; i++) { g.push({i: i, s: 'x' + i}); } return g.length; } async function f(){ try { try { throw { inner: [1] }; } finally { const a = [junk()]; await order({k: 1}); junk(); } } finally { const b = { n: junk() }; await order({k: 2}); junk(); __log.push('outer-fin'); } } try { await f(); return 'no'; } catch (e) { return ['caught', e.inner]; } }"),
+    ("finally-sync-callee-suspends", "async function main(){ function junk(){ var g = []; for (var i = 0; i < 40; i++) { g.push({i: i, s: 'x' + i}); } return g.length; } function blocking(k){ return order({k: k}); } async function f(){ try { throw { payload: { p: [1, 2] } }; } finally { const t = [junk(), junk()]; const v = blocking(t.length); junk(); __log.push(String(await v)); } } try { await f(); return 'no'; } catch (e) { return ['caught', e.payload]; } }"),
+    ("catch-binding-survives", "async function main(){ function junk(){ var g = []; for (var i = 0; i < 40; i++) { g.push({i: i, s: 'x' + i}); } return g.length; } try { throw { first: [1, 2] }; } catch (e) { const r = await order({k: 1}); junk(); const again = await order({k: 2}); return [e.first, r, again]; } }"),
+    ("for-of-map-entries", "async function main(){ const m = new Map([['a', {v: 1}], ['b', {v: 2}], ['c', {v: 3}]]); const out = []; for (const [k, o] of m) { const r = await order({k: o.v}); out.push(k + r); } return out; }"),
+    ("for-of-set-and-entries", "async function main(){ const out = []; for (const x of new Set([3, 1, 2])) { out.push(await order({k: x})); } for (const [i, v] of ['p', 'q'].entries()) { out.push(i + v + await order({k: i})); } return out; }"),
+    ("for-in-keys", "async function main(){ const o = {a: 1, b: 2, c: 3}; const out = []; for (const k in o) { out.push(k + await order({k: o[k]})); } return out; }"),
+    ("destructuring-in-progress", "async function main(){ const src = { a: 1, b: { c: [2, 3] } }; const { a, b: { c: [x, y = await order({k: 9})] }, z = await order({k: a}) } = src; const [p, q = await order({k: 4}), ...rest] = [1, undefined, 3, 4]; return [a, x, y, z, p, q, rest]; }"),
+    ("spread-and-call-args", "async function main(){ function f(...xs){ return xs; } const a = [1, 2]; return f(...a, await order({k: 3}), ...[await order({k: 4})], 9); }"),
+    ("switch-and-labels", "async function main(){ const out = []; outer: for (let i = 0; i < 3; i++) { switch (await order({k: i})) { case 0: out.push('zero'); break; case 2: out.push('two'); continue outer; default: out.push('other'); break outer; } out.push('after' + i); } return out; }"),
+    ("closures-over-loop-variable", "async function main(){ const fs = []; for (let i = 0; i < 3; i++) { const r = await order({k: i}); fs.push(function(){ return i * 10 + r; }); } return fs.map(function(f){ return f(); }); }"),
+    ("compound-and-update", "async function main(){ let x = 1; const o = { n: 5, arr: [1, 2] }; x += await order({k: 2}); o.n *= await order({k: 3}); o.arr[1] += await order({k: 1}); x++; return [x, o.n, o.arr]; }"),
+    ("optional-chain-and-nullish", "async function main(){ const o = { f(v){ return [this === o, v]; }, n: null }; const a = o?.f(await order({k: 1})); const b = o.n ?? await order({k: 2}); const c = o.missing?.(await order({k: 3})); return [a, b, c]; }"),
+    ("private-fields-and-statics", "async function main(){ class K { #p = 5; static #s = 7; static count = 0; async m(){ const r = await order({k: this.#p}); K.count++; return [this.#p, K.#s, r]; } static async sm(){ const r = await order({k: K.#s}); return [this === K, r]; } } return [await new K().m(), await K.sm(), K.count]; }"),
+    ("getter-setter-frames", "async function main(){ let store = 0; const o = { get g(){ return store + 1; }, set s(v){ store = v; } }; o.s = await order({k: 2}); const a = o.g; o.s = o.g + await order({k: 1}); return [a, store, o.g]; }"),
+    ("generator-consumed-across-awaits", "async function main(){ function* g(){ let acc = 0; while (true) { const v = yield acc; acc += v; } } const it = g(); it.next(); const a = it.next(await order({k: 1})).value; const b = it.next(await order({k: 2})).value; return [a, b, it.next(1).value]; }"),
+    ("template-and-tagged", "async function main(){ function tag(s, ...v){ return s.raw.join('|') + v.join(','); } const t = `a${await order({k: 1})}b${[await order({k: 2})]}c`; return [t, tag`x${await order({k: 3})}y${1}`]; }"),
+    ("new-target-and-construct", "async function main(){ function F(v){ this.v = v; this.nt = new.target === F; } async function mk(){ return new F(await order({k: 4})); } const o = await mk(); return [o.v, o.nt, o instanceof F]; }"),
+    ("three-deep-with-try-each", "async function main(){ async function c(){ try { return await order({err: 'deep'}); } finally { __log.push('c-fin'); } } async function b(){ try { return await c(); } catch (e) { __log.push('b-caught'); throw new RangeError('rethrown:' + String(e)); } } async function a(){ try { return await b(); } catch (e) { return [e.name, e.message]; } finally { __log.push('a-fin'); } } return await a(); }"),
     ("caller-temp-array-literal", "async function main(){ async function inner(k){ return await order({k: k}); } function junk(){ var g = []; for (var i = 0; i < 40; i++) { g.push({i: i, s: 'x' + i}); } return g.length; } async function outer(){ const r = [ {tag: 'a'}, [1, 2], await inner(1), junk(), {tag: 'b'} ]; return r; } return await outer(); }"),
     ("caller-temp-object-literal", "async function main(){ async function inner(k){ return await order({k: k}); } function junk(){ var g = []; for (var i = 0; i < 40; i++) { g.push({i: i, s: 'x' + i}); } return g.length; } async function outer(){ const r = { first: {x: 1}, list: [3, [4]], got: await inner(2), n: junk(), last: {y: [5]} }; return r; } return await outer(); }"),
     ("caller-temp-call-arguments", "async function main(){ async function inner(k){ return await order({k: k}); } function junk(){ var g = []; for (var i = 0; i < 40; i++) { g.push({i: i, s: 'x' + i}); } return g.length; } function collect(a, b, c, d, e){ return [a, b, c, d, e]; } async function outer(){ return collect({x: 1}, [2], await inner(3), junk(), {y: 3}); } return await outer(); }"),
